@@ -54,7 +54,10 @@ def shape_to_gir(block, rng=None, lang_style=None):
             if blk or always or (rng is not None and rng.random() < 0.3):
                 d[key] = blk
         if k == "simple":
-            out.append((rng.choice(SIMPLE_OPS) if rng else SIMPLE_OPS[0])())
+            if "sop" in s:
+                out.append(SIMPLE_OPS[s["sop"]]())
+            else:
+                out.append((rng.choice(SIMPLE_OPS) if rng else SIMPLE_OPS[0])())
         elif k == "brk":
             out.append({"break_stmt": {"name": ""}})
         elif k == "cont":
@@ -62,8 +65,13 @@ def shape_to_gir(block, rng=None, lang_style=None):
         elif k == "ret":
             out.append({"return_stmt": {"name": "x"}})
         elif k == "decl":
-            out.append({"method_decl": {"name": "inner", "parameters": [{"parameter_decl": {"name": "a"}}],
-                                        "body": [{"return_stmt": {"name": "a"}}]}})
+            if "mbody" in s or "mparams" in s:
+                # a nested method that is itself checked (name "nm"): own parameter block / init / body
+                out.append(method_tree(s.get("mbody") or [], {"n": s.get("mparams", 1), "pextra": s.get("pextra", False),
+                                                              "minit": s.get("minit", False)}, "nm", rng))
+            else:
+                out.append({"method_decl": {"name": "inner", "parameters": [{"parameter_decl": {"name": "a"}}],
+                                            "body": [{"return_stmt": {"name": "a"}}]}})
         elif k == "if":
             d = {"condition": "c"}
             put(d, "then_body", sub("thn")); put(d, "else_body", sub("els"))
@@ -120,10 +128,29 @@ def shape_to_gir(block, rng=None, lang_style=None):
     return out
 
 
+def np_spec(np):
+    """parameter spec: an int, or {"n":…, "pextra": default-value statement in the parameter block,
+    "minit": the method_decl carries an init block}"""
+    if isinstance(np, dict):
+        return int(np.get("n", 0)), bool(np.get("pextra")), bool(np.get("minit"))
+    return int(np), False, False
+
+
 def method_tree(shape_body, nparams, name, rng=None):
+    n, pextra, minit = np_spec(nparams)
     d = {"name": name}
-    if nparams:
-        d["parameters"] = [{"parameter_decl": {"name": f"p{i}"}} for i in range(nparams)]
+    if n:
+        ps = []
+        for i in range(n):
+            if pextra and i == n - 1:
+                # default value computed by a statement that sits in the parameter block
+                ps.append({"assign_stmt": {"target": "%dv0", "operand": "1"}})
+                ps.append({"parameter_decl": {"name": f"p{i}", "default_value": "%dv0"}})
+            else:
+                ps.append({"parameter_decl": {"name": f"p{i}"}})
+        d["parameters"] = ps
+    if minit:
+        d["init"] = [{"assign_stmt": {"target": "p0", "operand": "1"}}]
     d["body"] = shape_to_gir(shape_body, rng)
     return {"method_decl": d}
 
@@ -419,7 +446,7 @@ def real_cfgs_of_tree(tree, first_id=10):
     dm = DataModel(rows)
     out = {}
     for r in rows:
-        if r["operation"] == "method_decl" and r["parent_stmt_id"] == 0:
+        if r["operation"] == "method_decl" and (r["parent_stmt_id"] == 0 or r.get("name") == "nm"):
             mid = r["stmt_id"]
             decl = dm.query_index_column_value_first("stmt_id", mid)
             params = dm.read_block(decl.parameters) if not _isna(r.get("parameters")) else None
@@ -995,6 +1022,44 @@ def gen_stmts(k, c, maxdepth):
     return res
 
 
+def degenerate_shapes():
+    """degenerate method shapes, enumerated completely: 0/1/3 parameters (optionally with a
+    default-value statement in the parameter block and/or an init block on the method_decl) x
+    {empty body, only declarations, a single return, one simple statement, one compound statement
+    with empty blocks}, at top level and as methods nested in a method / in a class."""
+    V = {"k": "simple", "sop": 2}                         # variable_decl
+    emptyc = lambda: {"k": "class", "flds": False, "sinit": [], "init": [], "methods": [], "nested": []}
+    bodies = [
+        [], [V], [V, V], [{"k": "ret"}], [dict(SIMPLE, sop=0)], [V, {"k": "ret"}],
+        [{"k": "if", "thn": [], "els": []}],
+        [{"k": "while", "ct": False, "pre": [], "body": [], "els": []}],
+        [{"k": "while", "ct": True, "pre": [], "body": [], "els": []}],
+        [{"k": "while", "ct": False, "pre": [dict(SIMPLE, sop=0)], "body": [], "els": []}],
+        [{"k": "do", "ct": False, "body": [], "pre": []}],
+        [{"k": "for", "ct": False, "init": [], "pre": [], "upd": [], "body": []}],
+        [{"k": "for", "ct": False, "init": [dict(SIMPLE, sop=0)], "pre": [dict(SIMPLE, sop=0)], "upd": [dict(SIMPLE, sop=0)], "body": []}],
+        [{"k": "switch", "cases": []}],
+        [{"k": "switch", "cases": [{"dflt": False, "body": []}, {"dflt": True, "body": []}]}],
+        [emptyc()], [dict(emptyc(), flds=True)],
+        [{"k": "try", "body": [dict(SIMPLE, sop=0)], "catches": [{"body": []}], "els": [], "fin": []}],
+        [{"k": "decl"}],
+    ]
+    nps = [0, 1, 3, {"n": 1, "pextra": True}, {"n": 3, "pextra": True}, {"n": 0, "minit": True},
+           {"n": 1, "minit": True}, {"n": 3, "pextra": True, "minit": True}]
+    for b in bodies:
+        for np in nps:
+            yield b, np
+    for b in bodies:
+        for m, pe, mi in ((0, False, False), (1, False, False), (3, False, False), (1, True, False), (3, True, True)):
+            inner = {"k": "decl", "mparams": m, "mbody": b, "pextra": pe, "minit": mi}
+            outers = [([inner], 0), ([inner], 1), ([V, inner, {"k": "ret"}], 0),
+                      ([dict(emptyc(), flds=True, methods=[{"k": "decl"}, inner])], 0),
+                      ([{"k": "if", "thn": [inner], "els": []}], 0),
+                      ([{"k": "decl", "mparams": 1, "mbody": [inner]}], 0)]
+            for ob, onp in outers:
+                yield ob, onp
+
+
 def exhaustive_shapes(maxsize, maxdepth):
     _memo.clear()
     for n in range(0, maxsize + 1):
@@ -1096,6 +1161,8 @@ def size_of(block):
     n = 0
     for s in block:
         n += 1
+        if s["k"] == "decl" and "mbody" in s:
+            n += 1 + size_of(s["mbody"]) + s.get("mparams", 1)
         for key in BLOCK_KEYS[s["k"]]:
             n += size_of(s.get(key) or [])
         for c in (s.get("catches") or []) + (s.get("cases") or []):
@@ -1175,29 +1242,45 @@ def lean_runs_agree(cases, rng, per_case=3):
 
 
 def direct_cases(shapes_with_params, rng, chunk=400, toplevel_ratio=0.0):
-    """run the REAL code on generated shapes (direct route) and convert the real rows back."""
+    """run the REAL code on generated shapes (direct route) and convert the real rows back.  One case
+    per top-level method, plus one per nested method "nm" (it carries the enclosing shape, so that
+    shrinking and replay work on the whole tree)."""
     cases = []
     for i in range(0, len(shapes_with_params), chunk):
         part = shapes_with_params[i:i + chunk]
         tree = [method_tree(b, np, f"f{j}", rng) for j, (b, np) in enumerate(part)]
         rows, cfgs = real_cfgs_of_tree(tree)
-        ms = [m for m in methods_of_rows(rows) if m[0] in cfgs]
-        if len(ms) != len(part):
+        top_ids = [r["stmt_id"] for r in rows if r["operation"] == "method_decl" and r["parent_stmt_id"] == 0]
+        if len(top_ids) != len(part):
             raise RuntimeError("direct route lost a method")
-        for (mid, name, p, b, err), (shape, np) in zip(ms, part):
+        top_index = {mid: j for j, mid in enumerate(top_ids)}
+        cur = -1
+        for (mid, name, p, b, err) in methods_of_rows(rows):
+            if mid in top_index:
+                cur = top_index[mid]
+            if mid not in cfgs:
+                continue
+            shape, np = part[cur]
             if err is not None:
                 raise RuntimeError("generated shape is outside the converter's model: " + err)
-            if strip_ids(b) != norm_shape(shape):
-                raise RuntimeError("rows_to_struct does not invert shape_to_gir/flatten: " + json.dumps(shape))
+            if mid in top_index:
+                if strip_ids(b) != norm_shape(shape):
+                    raise RuntimeError("rows_to_struct does not invert shape_to_gir/flatten: " + json.dumps(shape))
+                n, pextra, _ = np_spec(np)
+                if len(p) != n + (1 if pextra and n else 0):
+                    raise RuntimeError("parameter block lost a statement: " + json.dumps(np))
             cases.append({"params": p, "body": b, "real": cfgs[mid], "lang": "gir", "origin": "direct",
-                          "shape": shape, "nparams": np})
+                          "shape": shape, "nparams": np, "nested": mid not in top_index, "outer": i + cur})
     return cases
 
 
 def _direct_worker(args):
-    part, seed = args
+    part, seed, offset = args
     common.use_repo()
-    return direct_cases(part, random.Random(seed))
+    cases = direct_cases(part, random.Random(seed))
+    for c in cases:
+        c["outer"] += offset
+    return cases
 
 
 def direct_cases_parallel(shapes_with_params, rng, procs):
@@ -1207,7 +1290,7 @@ def direct_cases_parallel(shapes_with_params, rng, procs):
     n = len(shapes_with_params)
     step = max(400, (n + procs * 4 - 1) // (procs * 4))
     step = (step + 399) // 400 * 400
-    jobs = [(shapes_with_params[i:i + step], rng.getrandbits(32)) for i in range(0, n, step)]
+    jobs = [(shapes_with_params[i:i + step], rng.getrandbits(32), i) for i in range(0, n, step)]
     with mp.get_context("fork").Pool(procs) as pool:
         parts = pool.map(_direct_worker, jobs)
     return [c for p in parts for c in p]
@@ -1240,6 +1323,17 @@ def shape_variants(block):
                     cc = dict(c); cc["body"] = v
                     t = dict(s); t[lst] = cl[:j] + [cc] + cl[j + 1:]
                     yield block[:i] + [t] + block[i + 1:]
+        if s["k"] == "decl" and ("mbody" in s or "mparams" in s):
+            for v in shape_variants(s.get("mbody") or []):
+                t = dict(s); t["mbody"] = v
+                yield block[:i] + [t] + block[i + 1:]
+            if s.get("mparams", 1) > 0:
+                t = dict(s); t["mparams"] = 1 if s.get("mparams", 1) > 1 else 0; t.setdefault("mbody", [])
+                yield block[:i] + [t] + block[i + 1:]
+            for flag in ("pextra", "minit"):
+                if s.get(flag):
+                    t = dict(s); t[flag] = False
+                    yield block[:i] + [t] + block[i + 1:]
         if s.get("ct"):
             t = dict(s); t["ct"] = False
             yield block[:i] + [t] + block[i + 1:]
@@ -1255,48 +1349,60 @@ def shape_ok(block, c=None):
 
 
 def check_shape(shape, nparams, kinds, max_runs=3000, lang="gir"):
-    """one generated method through the direct route: returns the evaluated case dict."""
+    """one generated method tree through the direct route: the evaluated cases of its top-level
+    method (first) and of its nested methods."""
     rng = random.Random(0)
     cases = direct_cases([(shape, nparams)], None)
     stats = {"oracle_runs": 0, "oracle_exhaustive": 0}
     evaluate(cases, kinds, rng, max_runs, stats)
-    return cases[0]
+    return cases
 
 
 def unknown_violations(case):
     return [v["v"] for v in case["viol"] if v["known"] is None]
 
 
+def any_unknown(cases):
+    return any(unknown_violations(c) for c in cases)
+
+
+def np_variants(np):
+    n, pextra, minit = np_spec(np)
+    if minit:
+        yield {"n": n, "pextra": pextra, "minit": False}
+    if pextra:
+        yield {"n": n, "pextra": False, "minit": minit}
+    if n > 1:
+        yield {"n": 1, "pextra": pextra, "minit": minit}
+    if n > 0:
+        yield {"n": 0, "pextra": False, "minit": minit}
+
+
 def shrink_shape(shape, nparams, kinds, pred, budget=400):
-    """greedy: keep a smaller neighbour while pred(case) holds (case evaluated on the real code)."""
+    """greedy: keep a smaller neighbour while pred(cases) holds (cases evaluated on the real code)."""
     cur = shape
     cur_np = nparams
     steps = 0
     changed = True
     while changed and steps < budget:
         changed = False
-        cands = list(shape_variants(cur))
-        cands.sort(key=size_of)
-        for cand in cands:
+        cands = [(c, cur_np) for c in shape_variants(cur)]
+        cands.sort(key=lambda t: size_of(t[0]))
+        cands += [(cur, v) for v in np_variants(cur_np)]
+        for cand, cnp in cands:
             steps += 1
             if steps > budget:
                 break
             try:
-                c = check_shape(cand, cur_np, kinds, max_runs=1500)
+                cs = check_shape(cand, cnp, kinds, max_runs=1500)
             except Exception:
                 continue
-            if c["wf"] and pred(c):
-                cur = cand
+            if all(c["wf"] for c in cs) and pred(cs):
+                cur, cur_np = cand, cnp
                 changed = True
                 break
-    if cur_np:
-        try:
-            c = check_shape(cur, 0, kinds, max_runs=1500)
-            if c["wf"] and pred(c):
-                cur_np = 0
-        except Exception:
-            pass
-    return cur, cur_np
+    n, pextra, minit = np_spec(cur_np)
+    return cur, (n if not (pextra or minit) else {"n": n, "pextra": pextra, "minit": minit})
 
 
 # ------------------------------------------------------------------------------------------------
@@ -1363,19 +1469,35 @@ def render_python(block, ind, in_switch=False):
     return out
 
 
-def render_clike(block, ind, java):
+def render_clike(block, ind, lang, in_switch=False):
+    """JavaScript / TypeScript / Java / C / PHP.  Constructs a frontend lowers with attribute names the
+    CFG builder does not read (C02's open vocabulary findings: TypeScript try_body, PHP catch_stmt)
+    are rendered as their blocks in sequence, so that the rest of the method is still checked."""
+    java, c, php, ts = lang == "java", lang == "c", lang == "php", lang == "typescript"
+    v = (lambda n: "$" + n) if php else (lambda n: n)
     pad = "  " * ind
     out = []
-    def body(b):
-        return render_clike(b, ind + 1, java)
-    cond = lambda s: "true" if s.get("ct") else ("i < n" if s.get("pre") else "c")
+    def body(b, sw=in_switch):
+        return render_clike(b, ind + 1, lang, sw)
+    def cond(s):
+        if s.get("ct"):
+            return "1" if c else "true"
+        if s.get("pre") or java or c:
+            return f"{v('i')} < {v('n')}"
+        return v("c")
     for s in block:
         k = s["k"]
         if k == "simple":
-            out.append(pad + ("x = x + 1;" if s.get("v") else "x = 1;"))
+            out.append(pad + (f"{v('x')} = {v('x')} + 1;" if s.get("v") else f"{v('x')} = 1;"))
         elif k == "decl":
             if java:
                 out.append(pad + "class L { int m(int a) { return a; } }")
+            elif c:
+                out.append(pad + "int d;")
+            elif php:
+                out.append(pad + "function inner($a) { return $a; }")
+            elif ts:
+                out.append(pad + "function inner(a: number) { return a; }")
             else:
                 out.append(pad + "function inner(a) { return a; }")
         elif k == "brk":
@@ -1383,87 +1505,292 @@ def render_clike(block, ind, java):
         elif k == "cont":
             out.append(pad + "continue;")
         elif k == "ret":
-            out.append(pad + "return x;")
+            out.append(pad + f"return {v('x')};")
         elif k == "if":
-            out.append(pad + ("if (c > 0) {" if java else "if (c) {")); out += body(s["thn"])
+            out.append(pad + (f"if ({v('c')} > 0) {{" if (java or c) else f"if ({v('c')}) {{")); out += body(s["thn"])
             if s["els"]:
                 out.append(pad + "} else {"); out += body(s["els"])
             out.append(pad + "}")
         elif k == "while":
             op = s.get("op", "while_stmt")
-            if op == "forin_stmt":
-                out.append(pad + ("for (int v : xs) {" if java else "for (var k in xs) {"))
-            elif op == "for_value_stmt" and not java:
+            if op != "while_stmt" and java:
+                out.append(pad + "for (int v : xs) {")
+            elif op != "while_stmt" and php:
+                out.append(pad + "foreach ($xs as $v) {")
+            elif op == "forin_stmt" and not c:
+                out.append(pad + "for (var k in xs) {")
+            elif op == "for_value_stmt" and not c:
                 out.append(pad + "for (var v of xs) {")
             else:
                 out.append(pad + f"while ({cond(s)}) {{")
-            out += body(s["body"]); out.append(pad + "}")
+            out += body(s["body"], False); out.append(pad + "}")
         elif k == "do":
-            out.append(pad + "do {"); out += body(s["body"]); out.append(pad + f"}} while ({cond(s)});")
+            out.append(pad + "do {"); out += body(s["body"], False); out.append(pad + f"}} while ({cond(s)});")
         elif k == "for":
-            init = ("int i = 0" if java else "i = 0") if s["init"] else ""
-            c = "" if s.get("ct") else ("i < n" if (s["pre"] or java) else "c")
-            upd = "i++" if s["upd"] else ""
-            out.append(pad + f"for ({init}; {c}; {upd}) {{"); out += body(s["body"]); out.append(pad + "}")
+            init = ("int i = 0" if (java or c) else f"{v('i')} = 0") if s["init"] else ""
+            cc = "" if s.get("ct") else (f"{v('i')} < {v('n')}" if (s["pre"] or java or c) else v("c"))
+            upd = f"{v('i')}++" if s["upd"] else ""
+            out.append(pad + f"for ({init}; {cc}; {upd}) {{"); out += body(s["body"], False); out.append(pad + "}")
         elif k == "class":
             n = len(s.get("methods") or [])
-            ms = " ".join((f"int m{j}() {{ return 1; }}" if java else f"m{j}() {{ return 1; }}") for j in range(n))
-            fl = ("static int q = 1; " if java else "static q = 1; ") if s.get("flds") else ""
-            out.append(pad + f"class K {{ {fl}{ms} }}")
+            if c:
+                out.append(pad + "int k;")
+            elif php:
+                ms = " ".join(f"function m{j}() {{ return 1; }}" for j in range(n))
+                out.append(pad + f"class K {{ {'public static $q = 1; ' if s.get('flds') else ''}{ms} }}")
+            else:
+                ms = " ".join((f"int m{j}() {{ return 1; }}" if java else f"m{j}() {{ return 1; }}") for j in range(n))
+                fl = ("static int q = 1; " if java else "static q = 1; ") if s.get("flds") else ""
+                out.append(pad + f"class K {{ {fl}{ms} }}")
         elif k == "try":
-            out.append(pad + "try {"); out += body(s["body"])
-            cl = s["catches"] if java else s["catches"][:1]
-            for j, c in enumerate(cl):
-                out.append(pad + (f"}} catch (E{j} e) {{" if java else "} catch (e) {")); out += body(c["body"])
-            if s["fin"] or not cl:
-                out.append(pad + "} finally {"); out += body(s["fin"])
-            out.append(pad + "}")
+            if c or php or ts:
+                out.append(pad + "{"); out += body(s["body"]); out.append(pad + "}")
+                for cl in s["catches"]:
+                    out.append(pad + f"if ({v('c')}) {{"); out += body(cl["body"]); out.append(pad + "}")
+                out += render_clike(s["els"], ind, lang, in_switch) + render_clike(s["fin"], ind, lang, in_switch)
+            else:
+                out.append(pad + "try {"); out += body(s["body"])
+                cl = s["catches"] if java else s["catches"][:1]
+                for j, cc in enumerate(cl):
+                    out.append(pad + (f"}} catch (E{j} e) {{" if java else "} catch (e) {")); out += body(cc["body"])
+                if s["fin"] or not cl:
+                    out.append(pad + "} finally {"); out += body(s["fin"])
+                out.append(pad + "}")
         elif k == "switch":
-            out.append(pad + "switch (x) {")
-            for j, c in enumerate(s["cases"]):
-                out.append(pad + ("  default:" if c["dflt"] else f"  case {j}:"))
-                out += render_clike(c["body"], ind + 2, java)
+            out.append(pad + f"switch ({v('x')}) {{")
+            for j, cs in enumerate(s["cases"]):
+                out.append(pad + ("  default:" if cs["dflt"] else f"  case {j}:"))
+                out += render_clike(cs["body"], ind + 2, lang, True)
             out.append(pad + "}")
     return out
 
 
+def render_go(block, ind, in_switch=False):
+    """Go: no dowhile/try/class; switch is rendered as an if-chain (go_parser's switch_body attribute
+    is one of C02's open vocabulary findings and is not read by the CFG builder)."""
+    pad = "\t" * ind
+    out = []
+    def body(b, sw=in_switch):
+        return render_go(b, ind + 1, sw)
+    for s in block:
+        k = s["k"]
+        if k == "simple":
+            out.append(pad + ("x = x + 1" if s.get("v") else "x = 1"))
+        elif k in ("decl", "class"):
+            out.append(pad + "var d int")
+        elif k == "brk":
+            out.append(pad + ("x = 2" if in_switch else "break"))
+        elif k == "cont":
+            out.append(pad + "continue")
+        elif k == "ret":
+            out.append(pad + "return x")
+        elif k == "if":
+            out.append(pad + "if c > 0 {"); out += body(s["thn"])
+            if s["els"]:
+                out.append(pad + "} else {"); out += body(s["els"])
+            out.append(pad + "}")
+        elif k in ("while", "do"):
+            op = s.get("op", "while_stmt")
+            if k == "while" and op != "while_stmt":
+                out.append(pad + "for _, v := range xs {")
+            elif s.get("ct"):
+                out.append(pad + "for {")
+            else:
+                out.append(pad + "for i < n {")
+            out += body(s["body"], False); out.append(pad + "}")
+        elif k == "for":
+            init = "i := 0" if s["init"] else ""
+            cc = "" if s.get("ct") else "i < n"
+            upd = "i++" if s["upd"] else ""
+            out.append(pad + f"for {init}; {cc}; {upd} {{"); out += body(s["body"], False); out.append(pad + "}")
+        elif k == "try":
+            out += render_go(s["body"], ind, in_switch)
+            for cl in s["catches"]:
+                out.append(pad + "if c > 1 {"); out += body(cl["body"]); out.append(pad + "}")
+            out += render_go(s["els"], ind, in_switch) + render_go(s["fin"], ind, in_switch)
+        elif k == "switch":
+            for j, cs in enumerate(s["cases"]):
+                out.append(pad + f"if x == {j} {{"); out += render_go(cs["body"], ind + 1, True); out.append(pad + "}")
+    return out
+
+
+# degenerate methods written by hand per language: 0/1/3 parameters, empty body, only declarations,
+# single return, one compound statement with empty blocks, default-value parameters, methods in classes
+# and nested functions
+DEGENERATE = {
+    "python": """
+def dg_r0():
+    return 1
+def dg_r1(a):
+    return a
+def dg_r3(a, b, c):
+    return a
+def dg_d1(a, b=g(1)):
+    return b
+def dg_decl(a):
+    global q
+def dg_pass3(a, b, c):
+    pass
+def dg_c1(a):
+    if a:
+        pass
+class DgK:
+    def m0(self):
+        pass
+    def m1(self, x, y=h(2)):
+        def inner0():
+            pass
+        def inner1(z, w=3):
+            return z
+        return x
+""",
+    "javascript": """
+function dg_e0() {}
+function dg_e1(a) {}
+function dg_e3(a, b, c) {}
+function dg_d1(a, b = g(1)) {}
+function dg_d3(a, b = g(1), c = 2) { var x; }
+function dg_decl(a) { var x; let y; }
+function dg_r1(a) { return a; }
+function dg_c1(a) { if (a) {} }
+function dg_c2(a, b, c) { while (a) {} }
+function dg_c3(a) { for (;;) {} }
+function dg_c4(a) { switch (a) {} }
+class DgK { m0() {} m1(a) {} m3(a, b = 2, c = g(3)) { function inner0() {} function inner1(z) {} return a; } }
+function dg_outer(a) { function in0() {} function in1(b) {} function in3(b, c, d = 1) { return b; } }
+""",
+    "typescript": """
+function dg_e0() {}
+function dg_e1(a: number) {}
+function dg_e3(a: number, b: string, c: number) {}
+function dg_d1(a: number, b: number = g(1)) {}
+function dg_decl(a: number) { let x; var y; }
+function dg_r1(a: number) { return a; }
+function dg_c1(a: number) { if (a) {} }
+function dg_c2(a: number, b: number, c: number) { while (a) {} }
+class DgK { m0() {} m1(a: number) {} m3(a: number, b = 2, c: number = g(3)) { return a; } }
+function dg_outer(a: number) { function in0() {} function in1(b: number) {} }
+""",
+    "java": """
+class DgK {
+  void e0() {}
+  void e1(int a) {}
+  void e3(int a, int b, int c) {}
+  int r1(int a) { return a; }
+  void decl1(int a) { int x; }
+  void decl3(int a, int b, int c) { int x; int y; }
+  void c1(int a) { if (a > 0) {} }
+  void c2(int a) { while (a > 0) {} }
+  void c3(int a, int b, int c) { for (;;) {} }
+  void c4(int a) { switch (a) {} }
+  DgK(int a) {}
+  class In { void m0() {} void m1(int a) {} class In2 { void m(int a, int b, int c) {} } }
+  void outer(int a) { class Loc { void m0() {} void m1(int b) {} } }
+}
+interface DgI { void i0(); void i1(int a); }
+""",
+    "go": """
+func dg_e0() {}
+func dg_e1(a int) {}
+func dg_e3(a int, b int, c int) {}
+func dg_r1(a int) int { return a }
+func dg_decl(a int) { var x int }
+func dg_c1(a int) { if a > 0 {} }
+func dg_c2(a int, b int, c int) { for a > 0 {} }
+func dg_c3(a int) { for {} }
+func (k DgK) m0() {}
+func (k DgK) m1(a int) {}
+func dg_outer(a int) { f := func(b int) {}; g := func() {}; f(1); g() }
+""",
+    "c": """
+void dg_e0() {}
+void dg_e1(int a) {}
+void dg_e3(int a, int b, int c) {}
+int dg_r1(int a) { return a; }
+void dg_decl(int a) { int x; }
+void dg_decl3(int a, int b, int c) { int x; int y; }
+void dg_c1(int a) { if (a > 0) {} }
+void dg_c2(int a) { while (a > 0) {} }
+void dg_c3(int a, int b, int c) { for (;;) {} }
+void dg_c4(int a) { switch (a) {} }
+void dg_c5(int a) { do {} while (a > 0); }
+""",
+    "php": """
+function dg_e0() {}
+function dg_e1($a) {}
+function dg_e3($a, $b, $c) {}
+function dg_d1($a, $b = 2) {}
+function dg_d3($a, $b = 2, $c = array(1)) {}
+function dg_r1($a) { return $a; }
+function dg_decl($a) { global $q; }
+function dg_c1($a) { if ($a) {} }
+function dg_c2($a, $b, $c) { while ($a) {} }
+function dg_c4($a) { switch ($a) {} }
+class DgK { function m0() {} function m1($a) {} function m3($a, $b = 2, $c = 3) { return $a; } }
+function dg_outer($a) { function dg_in0() {} function dg_in1($b) {} }
+""",
+}
+
+
 def render_file(lang, shapes):
     lines = []
+    sig = lambda np, f: ", ".join(f(j) for j in range(np_spec(np)[0]))
     if lang == "python":
         for i, (b, np) in enumerate(shapes):
-            lines.append(f"def f{i}({', '.join('p%d' % j for j in range(np))}):")
+            lines.append(f"def f{i}({sig(np, lambda j: 'p%d' % j)}):")
             r = render_python(b, 1)
             lines += r if r else ["    pass"]
             lines.append("")
-    elif lang == "javascript":
+    elif lang in ("javascript", "typescript"):
         for i, (b, np) in enumerate(shapes):
-            lines.append(f"function f{i}({', '.join('p%d' % j for j in range(np))}) {{")
-            lines += render_clike(b, 1, False)
+            lines.append(f"function f{i}({sig(np, (lambda j: 'p%d: number' % j) if lang == 'typescript' else (lambda j: 'p%d' % j))}) {{")
+            lines += render_clike(b, 1, lang)
             lines.append("}")
     elif lang == "java":
         lines.append("class T {")
         for i, (b, np) in enumerate(shapes):
-            lines.append(f"  int f{i}({', '.join('int p%d' % j for j in range(np))}) {{")
-            lines += render_clike(b, 2, True)
+            lines.append(f"  int f{i}({sig(np, lambda j: 'int p%d' % j)}) {{")
+            lines += render_clike(b, 2, lang)
             lines.append("  }")
         lines.append("}")
-    return "\n".join(lines) + "\n"
+    elif lang == "c":
+        for i, (b, np) in enumerate(shapes):
+            lines.append(f"int f{i}({sig(np, lambda j: 'int p%d' % j)}) {{")
+            lines += render_clike(b, 1, lang)
+            lines.append("}")
+    elif lang == "php":
+        lines.append("<?php")
+        for i, (b, np) in enumerate(shapes):
+            lines.append(f"function f{i}({sig(np, lambda j: '$p%d' % j)}) {{")
+            lines += render_clike(b, 1, lang)
+            lines.append("}")
+    elif lang == "go":
+        lines.append("package main")
+        for i, (b, np) in enumerate(shapes):
+            lines.append(f"func f{i}({sig(np, lambda j: 'p%d int' % j)}) int {{")
+            lines += render_go(b, 1)
+            lines.append("}")
+    return "\n".join(lines) + "\n" + DEGENERATE.get(lang, "")
 
 
-EXT = {"python": "py", "javascript": "js", "java": "java"}
+EXT = {"python": "py", "javascript": "js", "java": "java", "go": "go", "typescript": "ts", "c": "c", "php": "php"}
 
 
-def start_lian(lang, shapes, scratch, extra_files=()):
-    """write the packed file and start `lian run` on it (plus corpus files); returns (Popen, workspace, src)."""
-    src = os.path.join(scratch, f"gen_{lang}." + EXT[lang])
-    with open(src, "w") as f:
-        f.write(render_file(lang, shapes))
-    ws = os.path.join(scratch, "ws_" + lang)
+def start_lian(langs, shapes_by_lang, scratch, extra_files=()):
+    """write one packed file per language and start ONE `lian run` over all of them (plus corpus
+    files); returns (Popen, workspace, {lang: source path})."""
+    srcs = {}
+    for lang in langs:
+        src = os.path.join(scratch, f"gen_{lang}." + EXT[lang])
+        with open(src, "w") as f:
+            f.write(render_file(lang, shapes_by_lang[lang]))
+        srcs[lang] = src
+    ws = os.path.join(scratch, "ws")
     env = dict(os.environ, PYTHONPATH=os.path.join(common.REPO, "src"), PYTHONHASHSEED="0")
-    cmd = ["/venv/bin/python", os.path.join(common.REPO, "src", "lian", "main.py"), "run", "-l", lang,
-           "-w", ws, "-f", "-q", src] + list(extra_files)
-    log = open(os.path.join(scratch, f"log_{lang}.txt"), "w")
-    return subprocess.Popen(cmd, stdout=log, stderr=subprocess.STDOUT, env=env, cwd=scratch), ws, src
+    cmd = ["/venv/bin/python", os.path.join(common.REPO, "src", "lian", "main.py"), "run", "-l", ",".join(langs),
+           "-w", ws, "-f", "-q"] + list(srcs.values()) + list(extra_files)
+    log = open(os.path.join(scratch, "log.txt"), "w")
+    return subprocess.Popen(cmd, stdout=log, stderr=subprocess.STDOUT, env=env, cwd=scratch), ws, srcs
 
 
 def read_bundle(pattern):
@@ -1488,27 +1815,41 @@ def to_int_cell(v):
 
 
 def frontend_cases(lang, ws):
-    """real GIR rows + real CFG of a finished lian run -> cases (one per method of the user file)."""
+    """real GIR rows + real CFG of a finished lian run -> cases (one per method of every unit).
+    `lang` is only the fallback: the language of each unit is read from frontend/module_symbols."""
+    import pandas as pd
     gir = read_bundle(os.path.join(ws, "lian_workspace", "frontend", "gir.bundle*"))
     cfg = read_bundle(os.path.join(ws, "lian_workspace", "semantic_p1", "cfg.bundle*"))
     if gir is None:
         raise RuntimeError("no gir bundle")
+    unit_lang, unit_path = {}, {}
+    ms_file = os.path.join(ws, "lian_workspace", "frontend", "module_symbols")
+    if os.path.exists(ms_file):
+        ms = pd.read_feather(ms_file)
+        for uid, l, pth in zip(ms.unit_id, ms.lang, ms.unit_path):
+            if isinstance(l, str) and l:
+                unit_lang[to_int_cell(uid)] = l
+                unit_path[to_int_cell(uid)] = os.path.basename(str(pth))
     edges = {}
     if cfg is not None:
         for m, a, b, k in zip(cfg.method_id, cfg.src_stmt_id, cfg.dst_stmt_id, cfg.control_flow_type):
             edges.setdefault(int(m), []).append([int(a), int(b), int(k)])
-    recs = gir.to_dict(orient="records")
-    rows = []
-    for r in recs:
-        rows.append({k: to_int_cell(v) for k, v in r.items()})
-    cases, skipped = [], []
-    for mid, name, p, b, err in methods_of_rows(rows, lang):
-        if err is not None:
-            skipped.append((mid, name, err))
-            continue
-        cases.append({"params": p, "body": b, "real": sorted(edges.get(mid, [])), "lang": lang,
-                      "origin": "frontend:" + lang, "method": name, "method_id": mid})
-    return cases, skipped, len(rows)
+    by_unit = {}
+    for r in gir.to_dict(orient="records"):
+        row = {k: to_int_cell(v) for k, v in r.items()}
+        by_unit.setdefault(row.get("unit_id"), []).append(row)
+    cases, skipped, nrows = [], [], 0
+    for uid, rows in by_unit.items():
+        ul = unit_lang.get(uid, lang)
+        nrows += len(rows)
+        for mid, name, p, b, err in methods_of_rows(rows, ul):
+            if err is not None:
+                skipped.append((mid, name, ul + ": " + err))
+                continue
+            cases.append({"params": p, "body": b, "real": sorted(edges.get(mid, [])), "lang": ul,
+                          "origin": "frontend:" + ul, "method": name, "method_id": mid,
+                          "unit": unit_path.get(uid)})
+    return cases, skipped, nrows
 
 
 # ------------------------------------------------------------------------------------------------
@@ -1517,11 +1858,11 @@ def frontend_cases(lang, ws):
 
 SIZES = {
     # exhaustive size, sample of the next size, random large programs, oracle cap (small / large),
-    # functions per frontend file, files per language
-    "quick": dict(exh=3, sample=3000, rand=700, cap_small=4000, cap_large=250, ffuncs=70, ffiles=1, procs=8),
-    "thorough": dict(exh=4, sample=30000, rand=20000, cap_small=6000, cap_large=600, ffuncs=200, ffiles=3, procs=14),
+    # generated functions per language and file, packed lian runs (each over all languages)
+    "quick": dict(exh=3, sample=3000, rand=700, cap_small=4000, cap_large=250, ffuncs=40, ffiles=1, procs=8),
+    "thorough": dict(exh=4, sample=30000, rand=20000, cap_small=6000, cap_large=600, ffuncs=120, ffiles=4, procs=14),
 }
-LANGS = ("python", "javascript", "java")
+LANGS = ("python", "javascript", "java", "go", "typescript", "c", "php")
 
 
 def load_corpus():
@@ -1548,7 +1889,7 @@ def frontend_shapes(rng, n):
         for s in walk(b):
             if s["k"] == "simple" and rng.random() < 0.3:
                 s["v"] = 1
-        out.append((b, rng.randint(0, 2)))
+        out.append((b, rng.randint(0, 3)))
     return out
 
 
@@ -1590,21 +1931,20 @@ def _run(ctx, proofs_ok, sz, rng, kinds, fps, widened, scratch):
     pool_procs = max(1, workers - max_lian)
     pending = []
     for fi in range(sz["ffiles"]):
-        for lang in LANGS:
-            d = os.path.join(scratch, f"{lang}{fi}")
-            os.makedirs(d, exist_ok=True)
-            shapes_f = frontend_shapes(random.Random(rng.getrandbits(64)), sz["ffuncs"])
-            # the corpus source files of the language ride along with its first generated file
-            files = [pth for l, pth in corpus_sources if l == lang] if fi == 0 else []
-            pending.append((lang, d, shapes_f, files))
+        d = os.path.join(scratch, f"front{fi}")
+        os.makedirs(d, exist_ok=True)
+        shapes_by_lang = {lang: frontend_shapes(random.Random(rng.getrandbits(64)), sz["ffuncs"]) for lang in LANGS}
+        # the corpus source files ride along with the first run
+        files = [pth for l, pth in corpus_sources] if fi == 0 else []
+        pending.append((d, shapes_by_lang, files))
     procs = []
 
     def pump():
         running = sum(1 for x in procs if x[1].poll() is None)
         while pending and running < max_lian:
-            lang, d, shapes_f, files = pending.pop(0)
-            p, ws, src = start_lian(lang, shapes_f, d, files)
-            procs.append([lang, p, ws, src, d])
+            d, shapes_by_lang, files = pending.pop(0)
+            p, ws, srcs = start_lian(LANGS, shapes_by_lang, d, files)
+            procs.append(["all", p, ws, srcs, d])
             running += 1
 
     pump()
@@ -1617,18 +1957,25 @@ def _run(ctx, proofs_ok, sz, rng, kinds, fps, widened, scratch):
     def stream():
         for _, j in corpus_direct:
             yield ("corpus", j["shape"], j.get("nparams", 0), sz["cap_small"])
+        for b, np in degenerate_shapes():
+            yield ("degenerate", b, np, sz["cap_small"])
         for b in exhaustive_shapes(sz["exh"], 3):
             yield ("exhaustive", b, 0, sz["cap_small"])
+        # the parameter block matters for entry and exit: all small bodies again with 1 and 3 parameters
+        for np in (1, 3, {"n": 1, "pextra": True}):
+            for b in exhaustive_shapes(sz["exh"] - 1, 3):
+                yield ("exhaustive", b, np, sz["cap_small"])
         _memo.clear()
         nxt = gen_blocks(sz["exh"] + 1, Ctx0(), 3)
         for b in rng.sample(nxt, min(len(nxt), sz["sample"] * mult)):
-            yield ("sample", b, rng.randint(0, 1), sz["cap_small"])
+            yield ("sample", b, rng.choice([0, 1, 1, 3]), sz["cap_small"])
         del nxt
         _memo.clear()
         for _ in range(sz["rand"] * mult):
-            yield ("random", random_block(rng, rng.randint(6, 40), Ctx0()), rng.randint(0, 2), sz["cap_large"])
+            yield ("random", random_block(rng, rng.randint(1, 40), Ctx0()),
+                   rng.choice([0, 1, 2, 3, {"n": 2, "pextra": True}, {"n": 1, "minit": True}]), sz["cap_large"])
 
-    counts = {"corpus": 0, "exhaustive": 0, "sample": 0, "random": 0}
+    counts = {"corpus": 0, "degenerate": 0, "exhaustive": 0, "sample": 0, "random": 0}
     chunk = []
     t_real = 0.0
 
@@ -1639,7 +1986,8 @@ def _run(ctx, proofs_ok, sz, rng, kinds, fps, widened, scratch):
         t1 = time.time()
         cases = direct_cases_parallel([(b, np) for _, b, np, _ in chunk], rng, pool_procs)
         t_real += time.time() - t1
-        for c, (origin, _, _, cap) in zip(cases, chunk):
+        for c in cases:
+            origin, _, _, cap = chunk[c["outer"]]
             c["origin"] = origin
             c["cap"] = cap
         for cap in sorted(set(c["cap"] for c in cases)):
@@ -1665,25 +2013,24 @@ def _run(ctx, proofs_ok, sz, rng, kinds, fps, widened, scratch):
     while pending and time.time() < deadline:
         time.sleep(0.5)
         pump()
-    for lang, p, ws, src, d in procs:
+    for lang, p, ws, srcs, d in procs:
         try:
             rc = p.wait(timeout=max(5, deadline - time.time()))
         except subprocess.TimeoutExpired:
             p.kill()
             rc = -9
         if rc != 0 or not glob.glob(os.path.join(ws, "lian_workspace", "semantic_p1", "cfg.bundle*")):
-            logs = glob.glob(os.path.join(d, "log_*.txt"))
+            logs = glob.glob(os.path.join(d, "log*.txt"))
             tail = open(logs[0]).read()[-1500:] if logs else ""
-            keep = src
-            if os.path.exists(src):
-                keep = open(src).read()
-            frontend_errors.append({"lang": lang, "rc": rc, "log_tail": tail, "source": keep})
+            frontend_errors.append({"lang": ",".join(LANGS), "rc": rc, "log_tail": tail,
+                                    "sources": {l: open(f).read() for l, f in srcs.items() if os.path.exists(f)}})
             continue
-        cs, sk, nrows = frontend_cases(lang, ws)
+        cs, sk, nrows = frontend_cases("python", ws)
+        by_base = {os.path.basename(f): f for f in list(srcs.values()) + [pth for _, pth in corpus_sources]}
         for c in cs:
-            c["source_file"] = src
+            c["source_file"] = by_base.get(c.get("unit"))
         fcases += cs
-        fskipped += [(lang,) + s for s in sk]
+        fskipped += [s_ for s_ in sk]
         frows += nrows
     evaluate(fcases, kinds, rng, sz["cap_large"], agg.stats)
     sources = {}
@@ -1702,11 +2049,15 @@ def _run(ctx, proofs_ok, sz, rng, kinds, fps, widened, scratch):
     ctx.cov["distinct_nontrivial"] = len(agg.distinct)
     ctx.cov["exhaustive"] = True
     ctx.cov["rule"] = (
-        f"direct route: corpus ({n_corpus}) + ALL structured methods of size<={sz['exh']} (nesting<=3) over simple/if/"
+        f"direct route: corpus ({n_corpus}) + {counts['degenerate']} degenerate method shapes (0/1/3 parameters, default-value statement in "
+        f"the parameter block, init block; empty / declaration-only / single-return / empty-compound bodies; at top level, nested in a "
+        f"method, in a class; exhaustive) + ALL structured methods of size<={sz['exh']} without parameters and of size<={sz['exh'] - 1} with "
+        f"1 and 3 parameters (nesting<=3) over simple/if/"
         f"while(+prebody,+else,+literal-true)/dowhile/for/break/continue/return/try(0-2 clauses,else,finally)/switch(0-3 cases,"
         f"default)/nested method/class ({n_exh}, exhaustive) + {n_sample} sampled of size {sz['exh'] + 1} + "
-        f"{counts['random']} random methods of 6-40 statements; frontends: {sz['ffuncs']}x{sz['ffiles']} generated functions per "
-        f"language ({', '.join(LANGS)}) in packed lian runs, every method of every unit checked on its REAL GIR rows; "
+        f"{counts['random']} random methods of 1-40 statements with 0-3 parameters; frontends: {sz['ffuncs']}x{sz['ffiles']} generated "
+        f"functions per language ({', '.join(LANGS)}) plus hand-written degenerate methods (empty bodies, default parameters, methods in "
+        f"classes / nested) in packed lian runs over all languages, every method of every unit checked on its REAL GIR rows; "
         "per method: real edge list == model edge list, cfgCheck on the real edges, Python run enumeration (branches both "
         "ways, loops 0/1/2 times, every case, raise at every step of a try body) on the real edges. "
         "non-trivial = distinct structured method (ids stripped) with a compound statement and a non-empty real CFG")
@@ -1717,7 +2068,8 @@ def _run(ctx, proofs_ok, sz, rng, kinds, fps, widened, scratch):
         "construct_histogram": agg.kinds_hist,
         "methods_direct": n_direct, "methods_frontend": len(fcases), "frontend_rows": frows,
         "frontend_methods_outside_model": len(fskipped),
-        "frontend_outside_model_reasons": sorted(set(s[-1] for s in fskipped))[:10],
+        "frontend_outside_model_reasons": sorted(set(s[-1] for s in fskipped))[:12],
+        "frontend_methods_by_language": {l: sum(1 for c in fcases if c["lang"] == l) for l in LANGS},
         "oracle_runs": stats["oracle_runs"], "oracle_enumeration_complete_for": stats["oracle_exhaustive"],
         "semantics_crosscheck": {"runs": sem_n, "disagreements": len(sem_bad)},
         "correspondence": {"compared": agg.n, "differences": agg.n_diff},
@@ -1745,8 +2097,9 @@ def _run(ctx, proofs_ok, sz, rng, kinds, fps, widened, scratch):
                       "(cfgCheck on the real edges, confirmed shape not covered by a known finding)",
               "failing_methods_in_run": agg.n_failing}
         if c.get("shape") is not None:
-            small, np_ = shrink_shape(c["shape"], c["nparams"], kinds, lambda k: bool(unknown_violations(k)))
-            k = check_shape(small, np_, kinds)
+            small, np_ = shrink_shape(c["shape"], c["nparams"], kinds, any_unknown)
+            ks = check_shape(small, np_, kinds)
+            k = ([x for x in ks if unknown_violations(x)] or ks)[0]
             rp.update({"kind": "direct", "shape": small, "nparams": np_, "case": describe(k)})
         else:
             rp.update({"kind": "frontend", "lang": c["lang"], "method": c.get("method"),
@@ -1754,8 +2107,8 @@ def _run(ctx, proofs_ok, sz, rng, kinds, fps, widened, scratch):
         ctx.violation(rp)
     elif frontend_errors:
         e = frontend_errors[0]
-        ctx.violation({"what": "lian run failed on a generated/corpus file (the semantic phase aborted before writing a CFG)",
-                       "kind": "frontend-crash", "lang": e["lang"], "source": e["source"], "log_tail": e["log_tail"]})
+        ctx.violation({"what": "lian run failed on the generated/corpus files (the semantic phase aborted before writing a CFG)",
+                       "kind": "frontend-crash", "lang": e["lang"], "sources": e["sources"], "log_tail": e["log_tail"]})
     elif diffs or sem_bad or not_wf or not proofs_ok:
         c = diffs[0] if diffs else None
         ctx.violation({
@@ -1838,28 +2191,31 @@ def replay(rp):
     common.use_repo()
     kinds = live_kinds()
     if rp.get("kind") == "direct":
-        c = check_shape(rp["shape"], rp.get("nparams", 0), kinds)
-        bad = unknown_violations(c)
-        print(json.dumps({"real": c["real"], "violations": c["viol"]}))
-        return 1 if bad else 0
+        cs = check_shape(rp["shape"], rp.get("nparams", 0), kinds)
+        print(json.dumps([{"real": c["real"], "violations": c["viol"], "nested": c.get("nested")} for c in cs]))
+        return 1 if any_unknown(cs) else 0
     if rp.get("kind") in ("frontend", "frontend-crash"):
         scratch = os.path.join(common.SCRATCH_ROOT, f"lv-{os.getpid()}")
         os.makedirs(scratch, exist_ok=True)
         try:
-            lang = rp["lang"]
-            src = os.path.join(scratch, "replay." + EXT[lang])
-            open(src, "w").write(rp["source"])
+            sources = rp.get("sources") or {rp["lang"]: rp["source"]}
+            files = []
+            for lang, text in sources.items():
+                src = os.path.join(scratch, "replay_" + lang + "." + EXT[lang])
+                open(src, "w").write(text)
+                files.append(src)
             ws = os.path.join(scratch, "ws")
             env = dict(os.environ, PYTHONPATH=os.path.join(common.REPO, "src"), PYTHONHASHSEED="0")
             p = subprocess.run(["/venv/bin/python", os.path.join(common.REPO, "src", "lian", "main.py"), "run", "-l",
-                                lang, "-w", ws, "-f", "-q", src], capture_output=True, text=True, env=env, cwd=scratch)
+                                ",".join(sources), "-w", ws, "-f", "-q"] + files, capture_output=True, text=True,
+                               env=env, cwd=scratch)
             if p.returncode != 0 or not glob.glob(os.path.join(ws, "lian_workspace", "semantic_p1", "cfg.bundle*")):
                 print(json.dumps({"lian_failed": (p.stdout + p.stderr)[-800:]}))
                 return 1
-            cases, _, _ = frontend_cases(lang, ws)
+            cases, _, _ = frontend_cases(next(iter(sources)), ws)
             stats = {"oracle_runs": 0, "oracle_exhaustive": 0}
             evaluate(cases, kinds, random.Random(0), 2000, stats)
-            bad = [(c.get("method"), unknown_violations(c)) for c in cases if unknown_violations(c)]
+            bad = [(c.get("method"), unknown_violations(c)) for c in cases if c["wf"] and unknown_violations(c)]
             print(json.dumps({"failing_methods": bad[:5]}))
             return 1 if bad else 0
         finally:
